@@ -29,6 +29,15 @@ CLAIMED = {
             "and per-block exact aggregates, totals, validity; composition by the div-lemma.", "4/C08"),
     "C09": ("get_multiplier_sequence decided on symbolic resolution sets; zoomify_cooler executed end to end with one or two symbolic bases: layout, "
             "recognition, every level equals direct coarsening of a base, bases are faithful copies, non-derivable sets refused.", "4/C09"),
+    "C10": ("Decided part only: in a converged run of the real balance_cooler (genome-wide, cis, trans; <=2 sweeps) the NaN bins are exactly the union of the "
+            "documented filters min_nnz/min_count/ignore_diags/blacklist (or a whole scope without data) and every other bin has a finite positive weight, "
+            "for symbolic thresholds and solver-enumerated small pixel tables. NOT claimed: MAD-max filter, flatness after iterating from an arbitrary "
+            "start (floating-point loop), see DESIGN 4/C10 and 5.", "4/C10"),
+    "C11": ("balance_cooler run twice symbolically (single span + builtin map vs solver-chosen chunk size + arbitrarily permuting map): weights and stats "
+            "equal up to 1e-9, spans tile the pixel table, every pixel visited once, repeated run identical; one sweep equals the dense "
+            "iterative-correction step.", "4/C11"),
+    "C12": ("Cooler.matrix(balance=...) dense/sparse/pixel output on symbolic pixels, windows and weight columns (exact reals + NaN flag): value == raw * "
+            "f(w[row]) * f(w[col]) with f = id or reciprocal (default for KR/VC/VC_SQRT names), NaN iff either weight is NaN; missing column => ValueError.", "4/C12"),
     "C20": ("binnify is decided for symbolic chromosome lengths (width concrete per case), get_binsize/get_chromsizes for every valid bin table of each "
             "layout with symbolic widths: a reported size implies every bin has the fixed form.", "4/C20"),
     "C03": ("For every stored matrix with n<=3 bins / K<=2 pixels (thorough n<=4,K<=3), every window, both storage modes, dense and sparse output "
